@@ -191,7 +191,7 @@ pub fn run_node(data: &Value) -> Vec<Line> {
         let payload = format!("{}#{}", it, fmt_node(&node));
         match res {
             Err(e) => {
-                lines.push(Line::corr(&["C01", "C02", "C06", "C08", "C10"], "N", payload, "P".to_string()));
+                lines.push(Line::corr(&["C01", "C02", "C04", "C06", "C08", "C10"], "N", payload, "P".to_string()));
                 lines.push(Line::direct(&["C10"], false, format!("run_bab_node panicked on node {} of a valid instance: {}", fmt_node(&node), e)));
             }
             Ok(d) => {
@@ -209,7 +209,7 @@ pub fn run_node(data: &Value) -> Vec<Line> {
                         }
                     }
                 }
-                lines.push(Line::corr(&["C01", "C02", "C05", "C06", "C08", "C10", "C11", "C17"], "N", payload, dump_to_text(&d)).feat(&feat).trivial(visited == 1 && !matches!(d, caobab_api::NodeDump::Infeasible(..))));
+                lines.push(Line::corr(&["C01", "C02", "C04", "C05", "C06", "C08", "C10", "C11", "C17"], "N", payload, dump_to_text(&d)).feat(&feat).trivial(visited == 1 && !matches!(d, caobab_api::NodeDump::Infeasible(..))));
                 match d {
                     caobab_api::NodeDump::Feasible(a, s) => {
                         // the specification predicates, evaluated in Lean on the real code's answer
@@ -439,8 +439,16 @@ pub fn run_solve(data: &Value) -> Vec<Line> {
     }
     // C02 / C17: exact optimum by brute force
     if data["brute"].as_bool().unwrap_or(false) && !verdicts.is_empty() {
-        let got = verdicts[0].1.map(|x| x as u64);
         let opt_norooms = brute::brute_opt(&inst, None);
+        // every distinct answer over the schedules is compared (the first one first)
+        let mut answers: Vec<Option<u64>> = vec![];
+        for v in verdicts.iter() {
+            let g = v.1.map(|x| x as u64);
+            if !answers.contains(&g) {
+                answers.push(g);
+            }
+        }
+        for got in answers {
         match &inst.rooms {
             None => {
                 let ok = got == opt_norooms;
@@ -464,6 +472,7 @@ pub fn run_solve(data: &Value) -> Vec<Line> {
                 };
                 lines.push(Line::direct(&["C17"], ok, format!("with rooms {:?}, optimum without room limits {:?}", got, opt_norooms)));
             }
+        }
         }
     } else if inst.rooms.is_some() && !known_class && !verdicts.is_empty() && tree.as_ref().map_or(false, |t| t.complete) {
         // C17 beyond the brute-force range: the reference optimum without room limits is the complete
@@ -609,7 +618,7 @@ pub fn run_engine(data: &Value) -> Vec<Line> {
         }
         let req = json!({"threads": threads, "nodes": tree.to_json(), "trace": tj, "result": result});
         let exp = "ok".to_string();
-        lines.push(Line::corr(if has_panic { &["C19", "C04"] } else { &["C03", "C04", "C09"] }, "T", req.to_string(), exp).trivial(!nontrivial));
+        lines.push(Line::corr(if has_panic { &["C19", "C04"] } else { &["C02", "C03", "C04", "C09"] }, "T", req.to_string(), exp).trivial(!nontrivial));
     }
     if verdicts.len() >= 2 {
         let same = verdicts.iter().all(|v| *v == verdicts[0]);
